@@ -271,6 +271,53 @@ def run(repo: Repo, ctx) -> None:
            f'(unescaped) quoted form; the lexer rejects these characters '
            f'unescaped', vc.loc, sample=f'guard {gname}: raw ∩ prohibited = '
                                         f'{leak.show()}')
+    # no raw form is written when the guard found such a character (path
+    # fact: assume the search matched; no open node writes the value as is
+    # or through the dollar-quoted form, which escapes nothing)
+    from ..absint import Facts, open_nodes
+    gvc = CFG(vc.node)
+    kind_tests = [n.test for n in ast.walk(vc.node) if isinstance(n, ast.If)
+                  and isinstance(n.test, ast.Compare)
+                  and norm(n.test).endswith('ConstantKind.STRING')]
+    if not kind_tests:
+        raise AnalysisError('C18.R2: visit_Constant string arm not found')
+    Fvc = Facts({norm(guard_tests[0].test.operand): True,
+                 norm(kind_tests[0]): True}, vc.node)
+    # whether one given character occurs in the value says nothing about
+    # whether some character of a larger class does (both are existential
+    # over a string that can hold both)
+    Fvc.independent = lambda at: (
+        isinstance(at, ast.Compare) and len(at.ops) == 1
+        and isinstance(at.ops[0], (ast.In, ast.NotIn))
+        and isinstance(at.left, ast.Constant)
+        and isinstance(at.left.value, str) and len(at.left.value) == 1
+        and gset.size() > 1)
+    on_vc = open_nodes(gvc, Fvc)
+
+    def _raw_write(c: ast.Call) -> bool:
+        if norm(c.func) != 'self.write':
+            return False
+        for a in c.args:
+            if norm(a) == 'node.value':
+                return True
+            if isinstance(a, ast.Call) and (call_name(a) or '').split(
+                    '.')[-1] == 'dollar_quote_literal':
+                return True
+        return False
+    raw_nodes = [i for i in sorted(on_vc)
+                 if any(_raw_write(c) for c in gvc.node_calls(gvc.nodes[i]))]
+    all_raw = [x.id for x in gvc.nodes
+               if any(_raw_write(c) for c in gvc.node_calls(x))]
+    if len(all_raw) < 4:
+        raise AnalysisError('C18.R2: raw writes of visit_Constant not found')
+    ctx.ob('C18.R2', 'visit_Constant:raw-only-under-guard',
+           not raw_nodes and bool(Fvc.used),
+           f'visit_Constant writes a string in a raw form (as is between '
+           f'delimiters, or dollar-quoted) at line(s) '
+           f'{[gvc.nodes[i].lineno for i in raw_nodes]} although {gname} '
+           f'found a character the lexer rejects unescaped: raw forms '
+           f'escape nothing', vc.loc,
+           sample=f'under {gname}.search(value): only quote_literal')
     # raw writes are dominated by `d not in node.value` for the same d, and
     # the candidate delimiters are single characters
     for lp in [n for n in ast.walk(guard_tests[0]) if isinstance(n, ast.For)]:
